@@ -258,8 +258,13 @@ type Store struct {
 	// removes it later.
 	GracefulPods atomic.Bool
 
-	mu        sync.Mutex
-	kubeHooks []Hook
+	// PodGroupLag: MODIFIED events of PodGroup watches are held back until ReleasePodGroupEvents (lagwatch.go)
+	PodGroupLag        atomic.Bool
+	heldPodGroupEvents atomic.Int64
+
+	mu         sync.Mutex
+	kubeHooks  []Hook
+	lagWatches []*lagWatch
 }
 
 // Hook is called for every clientset action before it reaches the tracker. Returning handled=true short-circuits.
@@ -281,6 +286,9 @@ func New() *Store {
 		w, err := s.Tracker.Watch(action.GetResource(), action.GetNamespace(), opts)
 		if err != nil {
 			return false, nil, err
+		}
+		if action.GetResource().Resource == "podgroups" {
+			return true, s.newLagWatch(w), nil
 		}
 		return true, w, nil
 	}
